@@ -93,6 +93,11 @@ func VerifC01ClaimStep() {
 	voted := make([]bool, n)
 	if attPresent {
 		att := &types.Attestation{Height: 1}
+		if rt.Bool("staleVoteOfUnbondedOracle") {
+			// a vote left behind by an oracle that has since unbonded (its record is gone): it
+			// carries no power
+			att.Votes = append(att.Votes, verifOracleIdent(9).oracle.String())
+		}
 		for i := 0; i < n; i++ {
 			voted[i] = rt.Bool(fmt.Sprintf("oracle%d.alreadyVoted", i))
 			if voted[i] {
